@@ -9,6 +9,9 @@ package c15
 
 import (
 	"fmt"
+	"os"
+	"runtime"
+	"strconv"
 	"strings"
 	"testing"
 	"time"
@@ -67,8 +70,10 @@ func TestCheck(t *testing.T) {
 	for i := 0; i < nconc; i++ {
 		plans = append(plans, pl{mode: "conc"})
 	}
+	// debugging aid only (never set by the driver): restrict the run to some modes
+	only := os.Getenv("VERIF_C15_MODES")
 	for idx, p := range plans {
-		if !mon.Mine(idx) {
+		if !mon.Mine(idx) || (only != "" && !strings.Contains(","+only+",", ","+p.mode+",")) {
 			continue
 		}
 		rng := mon.NewRNG("c15", idx)
@@ -89,16 +94,20 @@ func TestCheck(t *testing.T) {
 // taken right after Stop returned (same goroutine, nothing in between).
 //
 //	gone     - no such goroutine
-//	looping  - it is still inside its select loop or inside Cleanup: it has not
-//	           even started to exit, so Stop did not wait for it
-//	exiting  - it has left the loop (deferred calls / goexit in flight). The
-//	           cleaner closes the channel Stop waits on from a deferred call, so
-//	           this state is legitimate for a correct Stop and is not judged.
-func cleanerState() (state string, frames string) {
-	for _, g := range mon.ParseStacks(mon.Stacks()) {
+//	looping  - it is still inside its loop: its own frame stands on the select,
+//	           on one of the cases or on the Cleanup call (the source line is
+//	           read from the file named in the traceback), or Cleanup / the map
+//	           are further up its stack. It has not started to exit, so Stop did
+//	           not wait for it.
+//	exiting  - it has left the loop (return / deferred calls / goexit in
+//	           flight). The cleaner closes the channel Stop waits on from a
+//	           deferred call, so this state is legitimate for a correct Stop and
+//	           is not judged.
+func cleanerState(dump string) (state string, frames string) {
+	for _, g := range mon.ParseStacks(dump) {
 		cleaner := false
 		for _, f := range g.Frames {
-			if strings.Contains(f, "ttlcache.") && strings.Contains(f, "startBackgroundCleanup") {
+			if strings.Contains(f, "ttlcache.") && strings.Contains(f, "startBackgroundCleanup.func") {
 				cleaner = true
 			}
 		}
@@ -111,23 +120,74 @@ func cleanerState() (state string, frames string) {
 		}
 		frames = "[" + g.State + "] " + strings.Join(fr, " <- ")
 		for _, f := range g.Frames {
-			if f == "runtime.selectgo" || (strings.Contains(f, "ttlcache.") && strings.HasSuffix(f, ".Cleanup")) || strings.Contains(f, "haxmap.") {
+			if (strings.Contains(f, "ttlcache.") && strings.HasSuffix(f, ".Cleanup")) || strings.Contains(f, "haxmap.") || f == "runtime.selectgo" {
 				return "looping", frames
 			}
+		}
+		lines := strings.Split(g.Text, "\n")
+		for i, l := range lines {
+			if !strings.Contains(l, "startBackgroundCleanup.func") || strings.HasPrefix(l, "created by") || i+1 >= len(lines) {
+				continue
+			}
+			src := sourceLine(strings.TrimSpace(lines[i+1]))
+			frames += " @ " + strings.TrimSpace(lines[i+1]) + " `" + src + "`"
+			if strings.HasPrefix(src, "select") || strings.HasPrefix(src, "case ") || strings.HasPrefix(src, "for ") || strings.Contains(src, ".Cleanup()") {
+				return "looping", frames
+			}
+			break
 		}
 		return "exiting", frames
 	}
 	return "gone", ""
 }
 
-// stopCheck calls Stop (twice: it is documented as idempotent by its CAS) and
-// judges the cleaner's state. Must be called inside the bubble.
+var srcCache = map[string][]string{}
+
+// sourceLine returns the trimmed source text for a traceback position
+// "/path/file.go:152 +0x278" ("" if it cannot be read).
+func sourceLine(pos string) string {
+	if i := strings.IndexByte(pos, ' '); i > 0 {
+		pos = pos[:i]
+	}
+	i := strings.LastIndexByte(pos, ':')
+	if i < 0 {
+		return ""
+	}
+	n, err := strconv.Atoi(pos[i+1:])
+	if err != nil {
+		return ""
+	}
+	ls, ok := srcCache[pos[:i]]
+	if !ok {
+		b, _ := os.ReadFile(pos[:i])
+		ls = strings.Split(string(b), "\n")
+		srcCache[pos[:i]] = ls
+	}
+	if n < 1 || n > len(ls) {
+		return ""
+	}
+	return strings.TrimSpace(ls[n-1])
+}
+
+var dumpBuf = make([]byte, 1<<19)
+
+// stopCheck calls Stop (twice: its CAS makes it idempotent) and judges the
+// cleaner's state. Must be called inside the bubble.
+//
+// The dump has to be taken before a cleaner that Stop did not wait for gets a
+// chance to run: the check runs on one P (GOMAXPROCS(1) for its duration) and
+// dumps into a preallocated buffer, so nothing else is scheduled between the
+// return of Stop and the snapshot. This only sharpens the observation; the
+// verdict rule is unchanged (a cleaner seen inside its loop after Stop returned).
 func stopCheck(c *ttlcache.Cache[string], ctx string, fail func(sig, msg string)) {
+	prev := runtime.GOMAXPROCS(1)
+	defer runtime.GOMAXPROCS(prev)
 	type out struct{ state, frames string }
 	done := make(chan out, 1)
 	go func() {
 		c.Stop()
-		s, f := cleanerState()
+		n := runtime.Stack(dumpBuf, true)
+		s, f := cleanerState(string(dumpBuf[:n]))
 		done <- out{s, f}
 	}()
 	select {
